@@ -1,8 +1,10 @@
 package checks
 
 import (
+	"fmt"
 	"math"
 	"net/url"
+	"reflect"
 )
 
 // Typed Go values referenced by name from cases (so that cases stay JSON-serialisable).
@@ -73,11 +75,28 @@ var truthValues = []truthVal{
 	{"ptr", &vStruct{Name: "p"}, 1, "ptr"}, {"nil_ptr", nilStructPtr, -1, "nilptr"}, {"nil_intptr", (*int)(nil), -1, "nilptr"},
 	// a pointer that is not nil is truthy whatever it points to (an optional field that is set)
 	{"ptr_false", new(bool), 1, "ptr"}, {"ptr_zero", new(int), 1, "ptr"}, {"ptr_empty", new(string), 1, "ptr"}, {"ptr_f0", new(float64), 1, "ptr"},
+	{"ptr_str", vPtr("px"), 1, "ptr"}, {"ptr_int7", vPtr(7), 1, "ptr"}, {"ptr_true", vPtr(true), 1, "ptr"}, {"ptr_f15", vPtr(1.5), 1, "ptr"}, {"ptr_named", vPtr(vNamedStr("pn")), 1, "ptr"},
 	{"negzero", math.Copysign(0, -1), -1, "float64"}, {"negzero32", float32(math.Copysign(0, -1)), -1, "float32"},
 	{"nan", math.NaN(), 0, "nan"},
 	// values whose string form has more than one spelling (exponent notation, sign, width)
 	{"float_small", 0.00005, 1, "float64"}, {"float_huge", 1e21, 1, "float64"}, {"float_frac", 1234567.125, 1, "float64"},
 	{"uint64_max", uint64(math.MaxUint64), 1, "uint64"}, {"int64_min", int64(math.MinInt64), 1, "int64"}, {"float32_third", float32(1) / 3, 1, "float32"},
+}
+
+func vPtr[T any](v T) *T { return &v }
+
+// printedForm: what a template prints for a value - fmt.Sprint, except that a pointer to a
+// string, number or bool prints what it points to (fmt would print an address).
+func printedForm(v any) string {
+	rv := reflect.ValueOf(v)
+	if rv.Kind() == reflect.Ptr && !rv.IsNil() {
+		switch rv.Elem().Kind() {
+		case reflect.Struct, reflect.Map, reflect.Slice, reflect.Array, reflect.Ptr, reflect.Interface, reflect.Func, reflect.Chan:
+		default:
+			return fmt.Sprint(rv.Elem().Interface())
+		}
+	}
+	return fmt.Sprint(v)
 }
 
 func truthByName(n string) truthVal {
